@@ -3,7 +3,9 @@ from genlib import *
 
 LEAN_MODULES = ["MpirProofs.Props.C09Rootrem"]
 THEOREMS = ["Mpir.Rootrem.rootrem_basecase_spec", "Mpir.Rootrem.rootrem_basecase_spec_threshold",
-            "Mpir.Rootrem.mpn_rootrem_newton_round_partial", "Mpir.Rootrem.mpn_rootrem_internal_round"]
+            "Mpir.Rootrem.mpn_rootrem_newton_round_partial", "Mpir.Rootrem.mpn_rootrem_internal_round",
+            "Mpir.Rootrem.mpn_rootrem_schedule_ok", "Mpir.Rootrem.mpn_rootrem_internal_spec",
+            "Mpir.Rootrem.mpn_rootrem_internal_approx_spec", "Mpir.Rootrem.mpn_rootrem_spec"]
 PINS = [("mpn/generic/rootrem_basecase.c", "mpn_rootrem_basecase"), ("mpn/generic/pow_1.c", "mpn_pow_1"),
         ("mpn/generic/rootrem.c", "mpn_rootrem"), ("mpn/generic/rootrem.c", "mpn_rootrem_internal")]
 TRUSTED = ["hand-written model lean/Mpir/Model/Rootrem.lean: mpn_rootrem_basecase at value + limb-count level "
